@@ -114,6 +114,15 @@ def fixed_pool_cases(profile):
             for k in range(8):
                 cases.append({'backend': be, 'api': 'lpm' if k % 2 else 'pm', 'n': 3, 'workers': 2, 'buffer': 2,
                               'delays': [0, 1, 0], 'salt': 1000 + k})
+            # examples that are arrays, exception objects, falsy or refuse ==/bool()/len(): on every backend, through
+            # the pool path and (thread backend) the single-thread hand-over
+            for k, vk in enumerate(('ndarray', 'exc', 'touchy', 'falsy')):
+                cases.append({'backend': be, 'api': ('lpm', 'pm', 'pf')[k % 3], 'n': 4, 'workers': 2, 'buffer': 2,
+                              'delays': [2, 0, 1, 0], 'vk': vk, 'salt': 50 + k})
+            if be == 't':
+                for vk in ('ndarray', 'exc', 'touchy', 'falsy'):
+                    cases.append({'backend': be, 'api': 'pf', 'n': 4, 'workers': 1, 'buffer': 2,
+                                  'delays': [0, 1, 0, 0], 'vk': vk})
         elif profile == 'stop':
             for api in ('lpm', 'pm', 'pf'):
                 cases.append({'backend': be, 'api': api, 'n': 30, 'workers': 2, 'buffer': 16, 'delays': [30] * 30,
@@ -132,6 +141,12 @@ def fixed_pool_cases(profile):
                           'fn_fail': {'2': 'VErrB'}})
             cases.append({'backend': be, 'api': 'pm', 'n': 5, 'workers': 2, 'buffer': 4, 'delays': [0, 8, 0, 0, 0],
                           'fn_fail': {'1': 'VErrC', '3': 'VErrA'}})
+            if be == 't':
+                # an exception whose instances are falsy, through the single-thread hand-over (lazy_dataset's own code;
+                # concurrent.futures.Future itself loses such exceptions - `if self._exception:` - so the pool paths
+                # are outside the domain for this one)
+                cases.append({'backend': be, 'api': 'pf', 'n': 5, 'workers': 1, 'buffer': 2, 'delays': [0] * 5,
+                              'fn_fail': {'3': 'VFalsy'}})
             if be in ('t', 'mp', 'dill_mp'):
                 cases.append({'backend': be, 'api': 'pf', 'n': 5, 'workers': 2, 'buffer': 2, 'delays': [2, 8, 0, 4, 0],
                               'fn_fail': {'0': 'VErrC', '3': 'VErrA'}, 'catch': ['VErrA', 'VErrC']})
